@@ -427,6 +427,13 @@ fn validate_and_transcode_texture_for_entry(
             // primary(dest_format, "unknown color format"),
         )))?;
 
+        let expected_len = src_cformat.bytes_per_pixel() * src_metadata.width as usize * src_metadata.height as usize;
+        if src_data.data.len() != expected_len {
+            return Err(emitter.emit(error!(
+                message("cannot transcode image '{entry_path}': it has {} bytes of data but its dimensions require {expected_len}", src_data.data.len()),
+                note("the image was loaded from '{}'", loaded_source_path.display()),
+            )));
+        }
         let data_argb = src_cformat.transcode_to_argb_8888(&src_data.data);
         dest_cformat.transcode_from_argb_8888(&data_argb)
     };
